@@ -936,8 +936,9 @@ def find_replace(
             # The replacement takes the place of one operand, and must remain one where it is put.
             plain = source[:range_start] + template_replacement + source[range_end:]
             grouped = source[:range_start] + f"({template_replacement})" + source[range_end:]
+            # The parentheses of a generator that is the only argument of a call belong to the call.
             if (
-                not _is_atom(template_replacement)
+                (isinstance(matches[0][0], ast.GeneratorExp) or not _is_atom(template_replacement))
                 and core.is_valid_python(grouped)
                 and not (core.is_valid_python(plain) and _sources_equivalent(plain, grouped))
             ):
